@@ -244,6 +244,15 @@ def run(ctx):
                 signer = (op.get("urls") or {}).get(kid)
                 if not signer or not key_authorised(signer, op["at"], kid, d.get("sigKeys")):
                     why.append("presentation-not-signed-by-an-assertion-key-of-the-signer")
+                if is_jwt:
+                    j = d.get("jwt") or {}
+                    if (j.get("exp") is not None and op["at"] // 1000 >= j["exp"] // 1000 and j["exp"] // 1000 != 0) or \
+                            (j.get("nbf") is not None and op["at"] // 1000 < j["nbf"] // 1000):
+                        why.append("presentation-jwt-outside-window")
+                else:
+                    pr = d.get("proof") or {}
+                    if pr.get("created", 0) > op["at"] + 5000 or (pr.get("expires") is not None and pr["expires"] + 5000 < op["at"]):
+                        why.append("presentation-proof-outside-window")
                 for c in d.get("vcs") or []:
                     if any(sj != signer for sj in (c.get("subjects") or [None])):
                         why.append("signer-is-not-subject-of-every-credential")
